@@ -9,6 +9,7 @@ use serde::{Deserialize, Serialize};
 use crate::{
     generator::{DenseLuaGenerator, LuaGenerator, ReadableLuaGenerator, TokenBasedLuaGenerator},
     nodes::Block,
+    process::utils::is_valid_identifier,
     rules::{
         bundle::{BundleRequireMode, Bundler},
         get_default_rules, Rule,
@@ -313,10 +314,33 @@ impl FromStr for GeneratorParameters {
 pub struct BundleConfiguration {
     #[serde(deserialize_with = "crate::utils::string_or_struct")]
     require_mode: BundleRequireMode,
-    #[serde(skip_serializing_if = "Option::is_none")]
+    #[serde(
+        default,
+        skip_serializing_if = "Option::is_none",
+        deserialize_with = "deserialize_modules_identifier"
+    )]
     modules_identifier: Option<String>,
     #[serde(default, skip_serializing_if = "HashSet::is_empty")]
     excludes: HashSet<String>,
+}
+
+fn deserialize_modules_identifier<'de, D>(deserializer: D) -> Result<Option<String>, D::Error>
+where
+    D: serde::Deserializer<'de>,
+{
+    let modules_identifier = Option::<String>::deserialize(deserializer)?;
+
+    // the identifier is written in the generated code as a variable name
+    if let Some(identifier) = modules_identifier.as_ref() {
+        if !is_valid_identifier(identifier) {
+            return Err(serde::de::Error::custom(format!(
+                "invalid modules identifier `{}` (it must be a valid variable name)",
+                identifier
+            )));
+        }
+    }
+
+    Ok(modules_identifier)
 }
 
 impl BundleConfiguration {
